@@ -1394,10 +1394,12 @@ fn run(args: &Args) -> i32 {
     rep.assume("the hand-written children accessors of the oracle (Subject::kids / rebuild) state the documented children order of Expr and LogicalPlan; for Arc<dyn PhysicalExpr> / Arc<dyn ExecutionPlan> the documented order is children()");
 
     // the node bound of the exhaustive part: 5 nodes in the quick tier, 6 in the thorough tier for
-    // all four harness implementations (Miri: 4 for VecNode, 3 for the others)
+    // all four harness implementations (Miri: see below)
     let max_nodes: [usize; 4] = if miri {
-        let m = args.opt_u64("exh_nodes", 4) as usize;
-        [m, 3, 3, 3]
+        // Miri interprets ~40 runs per second: 3 nodes (~15k runs) by default, `--opt exh_nodes=4`
+        // (~350k runs, hours) for a long stage
+        let m = args.opt_u64("exh_nodes", 3) as usize;
+        [m, 2, 2, m]
     } else {
         let v = args.bound("exh_nodes", 5, 6) as usize;
         let o = args.bound("exh_nodes_other", 5, 6) as usize;
@@ -1420,13 +1422,13 @@ fn run(args: &Args) -> i32 {
     rep.set_exhaustive(true);
     if part != "impl" {
         run_containers(&rep, miri);
-        let n_rand = if miri { args.opt_u64("random", 200) } else { args.bound("random", 200_000, 6_000_000) };
+        let n_rand = if miri { args.opt_u64("random", 60) } else { args.bound("random", 200_000, 6_000_000) };
         progress("containers done");
         run_random_harness(&rep, args, n_rand, stage_no, if miri { 8 } else { 12 });
         progress("random harness trees done");
     }
     if part != "harness" {
-        let n_impl = if miri { args.opt_u64("impl_cases", 60) } else { args.bound("impl_cases", 140_000, 4_200_000) };
+        let n_impl = if miri { args.opt_u64("impl_cases", 70) } else { args.bound("impl_cases", 140_000, 4_200_000) };
         impls::run_implementors(&rep, args, n_impl);
         progress("implementors done");
     }
